@@ -427,6 +427,11 @@ class Exe:
                 if which == "C" and self.a.segs[self.ia[i]].ret != 0:
                     continue
                 segs.append([o.set_line(c[1])])
+            elif c[0] == "hflush":
+                # several inputs without letting the loop run (a holder keeps them), then upipe_flush: flushing
+                # is not a setter of the option either
+                ins = [l for j in range(4) for l in o.inp(c[1] * 8 + j) if l.startswith("c20in")]
+                segs.append(ins + ["flush %s" % o.target])
             else:
                 segs.append(o.inp(c[1]))
             idx.append(i)
@@ -631,9 +636,12 @@ def random_exe(o, rng, quick):
             cmds.append(("get",))
             if rng.chance(1, 5):
                 cmds.append(("get",))
-        else:
+        elif c < 92:
             k += 1
             cmds.append(("in", k))
+        else:
+            k += 1
+            cmds.append(("hflush", k))
     return Exe(o, cmds, "random")
 
 
